@@ -12,6 +12,7 @@ import (
 	"fmt"
 	"sync"
 	"testing"
+	"time"
 
 	"github.com/nuts-foundation/go-stoabs"
 	"github.com/nuts-foundation/nuts-node/crypto/hash"
@@ -43,13 +44,15 @@ func c08GenState(t *rapid.T) c08StateCase {
 	c := c08StateCase{Shape: dagshape.Gen(t, p)}
 	n := rapid.IntRange(3, 24).Draw(t, "nops")
 	for i := 0; i < n; i++ {
-		k := rapid.SampledFrom([]string{"add", "add", "add", "add", "badpayload", "failwrite", "dup", "orphan", "reopen", "concurrent", "repair"}).Draw(t, "k")
+		k := rapid.SampledFrom([]string{"add", "add", "add", "add", "badpayload", "failwrite", "dup", "orphan", "reopen", "concurrent", "sched", "sched", "repair"}).Draw(t, "k")
 		op := c08Op{K: k, Sel: rapid.Uint32().Draw(t, "sel")}
 		switch k {
 		case "add":
 			op.N = rapid.SampledFrom([]int{1, 2, 5, 30, 200, 520, 700}).Draw(t, "n")
 		case "concurrent":
 			op.N = rapid.IntRange(2, 6).Draw(t, "n")
+		case "sched":
+			op.N = rapid.IntRange(0, 2).Draw(t, "what") // 0: same tx twice, 1: two siblings, 2: same tx three times
 		}
 		c.Ops = append(c.Ops, op)
 	}
@@ -205,7 +208,7 @@ func c08RunState(x *h.Ctx, c c08StateCase) {
 	f.open()
 	x.Cleanup(f.close)
 	next := 0 // position in order
-	rollbacks, reopens, repairs, concurrent := 0, 0, 0, 0
+	rollbacks, reopens, repairs, concurrent, scheds := 0, 0, 0, 0, 0
 
 	addOne := func(i int) error {
 		t := txs[i]
@@ -331,6 +334,70 @@ func c08RunState(x *h.Ctx, c c08StateCase) {
 			}
 			next += len(batch)
 			concurrent++
+		case "sched":
+			// harness-owned interleaving of the read and write transactions of 2-3 concurrent Add calls
+			var batch []int
+			for k := next; k < len(order) && len(batch) < 2; k++ {
+				i := order[k]
+				ok := true
+				for _, p := range txs[i].Node.Prevs {
+					if !f.added[txs[p].Tx.Ref()] {
+						ok = false
+					}
+				}
+				if !ok {
+					break
+				}
+				batch = append(batch, i)
+			}
+			if len(batch) == 0 {
+				continue
+			}
+			var actors []int // tx index per actor
+			switch {
+			case op.N == 1 && len(batch) == 2:
+				actors = []int{batch[0], batch[1]}
+			case op.N == 2:
+				actors = []int{batch[0], batch[0], batch[0]}
+				batch = batch[:1]
+			default:
+				actors = []int{batch[0], batch[0]}
+				batch = batch[:1]
+			}
+			// the schedule: a sequence of actor indices decoded from Sel (base len(actors)), 8 steps
+			var schedule []int
+			v := op.Sel
+			for k := 0; k < 8; k++ {
+				schedule = append(schedule, int(v%uint32(len(actors))))
+				v /= uint32(len(actors))
+			}
+			sch := vdNewSched(len(actors))
+			errs := make([]error, len(actors))
+			f.kv.setGate(sch.gate)
+			trace, ok := sch.run(schedule, func(a int) {
+				errs[a] = f.st.Add(sch.ctx(a), txs[actors[a]].Tx, txs[actors[a]].Payload)
+			}, 60*time.Second)
+			f.kv.setGate(nil)
+			if !ok {
+				x.Fatalf("scheduler timed out, trace %v", trace)
+			}
+			x.Logf("step %d sched trace %v", step, trace)
+			for a, e := range errs {
+				if e != nil {
+					x.Violate("state-sched-add-error", "step %d: Add of valid transaction %d failed under schedule %v: %v", step, actors[a], trace, e)
+					return
+				}
+			}
+			for _, i := range batch {
+				f.ref.add(txs[i].Tx)
+				f.added[txs[i].Tx.Ref()] = true
+				f.pay[txs[i].Tx.PayloadHash()] = txs[i].Payload
+			}
+			next += len(batch)
+			scheds++
+			if len(trace) >= 4 && trace[0][1:] == "R" && trace[1][1:] == "R" && trace[0][:1] != trace[1][:1] {
+				x.Class("sched:both-read-before-any-write")
+			}
 		case "repair":
 			if len(f.ref.set) == 0 {
 				continue
@@ -401,6 +468,9 @@ func c08RunState(x *h.Ctx, c c08StateCase) {
 	}
 	if concurrent > 0 {
 		x.Class("concurrent")
+	}
+	if scheds > 0 {
+		x.Class("sched")
 	}
 	if max >= PageSize && (rollbacks > 0 || reopens > 0) {
 		x.NonTrivial()
